@@ -517,10 +517,21 @@ impl Oracle {
         let (decoded, tolerated) = decode_lenient(buf);
         if let Some((class, why)) = tolerated {
             let ty = buf[0] >> 4;
+            // the DUP bit (and nothing else) on a SUBSCRIBE / UNSUBSCRIBE: named by where it happens, so that the
+            // recorded finding (on retransmissions) does not cover a first transmission
+            let replayed = match &decoded {
+                Ok((pkt, _)) => self.find_req_by_content(pkt).map(|i| self.reqs[i].call_conn != c),
+                _ => None,
+            };
+            let place = match replayed {
+                Some(true) => "DUP-bit-on-a-retransmission",
+                Some(false) => "DUP-bit-on-the-first-transmission",
+                None => "DUP-bit-on-an-unknown-request",
+            };
             self.flag(
                 "C01",
                 "W3-malformed",
-                &format!("type{}-{:?}-{}", ty, class, why.replace(' ', "_")),
+                &format!("type{}-{:?}-{}-{}", ty, class, why.replace(' ', "_"), place),
                 format!("offered packet {} is malformed: {}", mr::hex_short(buf), why),
             );
         }
@@ -557,10 +568,11 @@ impl Oracle {
             }
             Err(Bad::Malformed(class, why)) => {
                 let ty = buf[0] >> 4;
+                let flags = if class == mr::MalClass::BadFlags { format!("-first-byte-{:#04x}", buf[0]) } else { String::new() };
                 self.flag(
                     "C01",
                     "W3-malformed",
-                    &format!("type{}-{:?}-{}", ty, class, why.replace(' ', "_")),
+                    &format!("type{}-{:?}-{}{}", ty, class, why.replace(' ', "_"), flags),
                     format!("offered packet {} is malformed: {}", mr::hex_short(buf), why),
                 );
                 if c > 0 && ty != 1 {
